@@ -14,6 +14,8 @@ suffix = sys.argv[3] if len(sys.argv) > 3 else ""
 env = dict(os.environ, GOFLAGS="-mod=mod", GOPROXY="off", GOSUMDB="off", GOTOOLCHAIN="local")
 wt = "/tmp/vw_%s%s" % (pid, suffix)
 name = pid + (suffix and "_" + suffix.strip("_"))
+if len(sys.argv) > 4:
+    name = sys.argv[4]
 dst = "/verif/seeded/" + name
 
 def sh(cmd, cwd=None, timeout=1200):
@@ -24,7 +26,7 @@ def pick(pattern):
     c = [f for f in glob.glob(os.path.join(src, pattern))]
     return c[0] if c else None
 
-if suffix:
+if suffix and pick("patch%s.diff" % suffix):
     patch = pick("patch%s.diff" % suffix)
     demo = pick("demo%s_test.go" % suffix) or pick("demo_test%s.go" % suffix)
     meta = pick("meta%s.json" % suffix)
@@ -46,7 +48,8 @@ try:
         return fails, out
     def rundemo():
         shutil.copy(demo, demofile)
-        rc, out = sh("go test -vet=off -count=1 -run 'TestSeeded' ./%s 2>&1" % place, cwd=wt)
+        names = re.findall(r"^func (Test\w+)\(", open(demo).read(), flags=re.M)
+        rc, out = sh("go test -vet=off -count=1 -race -run '^(%s)$' ./%s 2>&1" % ("|".join(names) or "TestSeeded", place), cwd=wt)
         os.remove(demofile)
         return rc, out
     rc0, out0 = rundemo()
